@@ -211,6 +211,9 @@ func (r *Run) finish(wall time.Duration, err error) {
 	if len(r.notes) > 0 {
 		r.cov["notes"] = r.notes
 	}
+	if r.assumptions == nil {
+		r.assumptions = []string{"TLC and the harness projections (alpha/gamma) are trusted"}
+	}
 	ev := map[string]interface{}{
 		"property_id": r.ID, "tier": r.Tier, "seed": r.Seed, "level": r.Level,
 		"coverage": r.cov, "assumptions": r.assumptions, "wall_s": float64(int(wall.Seconds()*10)) / 10, "violations": len(r.viol),
